@@ -296,6 +296,52 @@ pub fn aftermath(sink: &mut Sink, seed: u64, thorough: bool, grp0: u64) {
     }
 }
 
+/// Walk: hundreds of DIFFERENT requests (all versions, modes, levels, masks) on the one long-lived executor thread, each issued three
+/// times at distant points of a shuffled sequence.  Whatever a build leaves behind for the next one (a cache keyed by version or size,
+/// a table patched in place, a buffer sized by the previous symbol) shows as a request whose later result differs from its first.
+/// Events carry the reported fields and a digest of the matrix (the matrices themselves are judged by the build scenarios).
+pub fn walk(sink: &mut Sink, seed: u64, thorough: bool, grp0: u64) {
+    use rand::seq::SliceRandom;
+    let mut r = rng(seed, 78);
+    let nreq = if thorough { 1500 } else { 260 };
+    let grp = grp0 + 1;
+    struct Req { input: Vec<u8>, sets: Vec<(usize, i64)>, builder: Arc<QRBuilder> }
+    let mut reqs: Vec<Req> = Vec::new();
+    for i in 0..nreq {
+        let mode = i % 3;
+        let v = if i % 5 == 0 { 0 } else { [1usize, 2, 3, 6, 7, 9, 10, 13, 20, 26, 27, 32, 39, 40][r.gen_range(0..14)] };
+        let e = r.gen_range(0..4usize);
+        let cap = if v == 0 { 120 } else { capacity(mode, e, v).min(if thorough { 3000 } else { 400 }) };
+        let n = r.gen_range(0..=cap);
+        let input = payload(&mut r, mode, n, mode > 0);
+        let mut sets: Vec<(usize, i64)> = vec![(0, e as i64)];
+        if v > 0 { sets.push((2, v as i64)); }
+        if i % 2 == 0 { sets.push((1, mode as i64)); }
+        if i % 7 == 0 { sets.push((3, (i % 8) as i64)); }
+        let mut b = QRBuilder::new(input.clone());
+        for &(reg, val) in &sets { apply_set(&mut b, reg, val); }
+        reqs.push(Req { input, sets, builder: Arc::new(b) });
+    }
+    let mut order: Vec<usize> = (0..nreq).chain(0..nreq).chain(0..nreq).collect();
+    order.shuffle(&mut r);
+    let mut seen = vec![false; nreq];
+    let mut seq = 0u64;
+    let mut emit = |sink: &mut Sink, seq: &mut u64, mut ev: Value| { *seq += 1; ev["seq"] = json!(*seq); ev["grp"] = json!(grp); ev["tid"] = json!(1); ev["id"] = json!(sink.id()); sink.emit(&ev); };
+    for i in order {
+        let q = &reqs[i];
+        let bid = 10 + i as u64;
+        if !seen[i] {
+            seen[i] = true;
+            emit(sink, &mut seq, json!({"ev": "HNew", "bid": bid, "tag": "hnew", "input": q.input}));
+            for &(reg, val) in &q.sets { emit(sink, &mut seq, set_event(grp, 1, 0, bid, reg, val)); }
+        }
+        let b = q.builder.clone();
+        let mut out = guarded(120, move || build_out(&b)).unwrap_or_else(|k| json!({"kind": k.split(':').next().unwrap_or("Panic"), "why": k}));
+        if let Some(m) = out.as_object_mut() { m.remove("vals"); m.remove("types"); }
+        emit(sink, &mut seq, json!({"ev": "HBuild", "bid": bid, "tag": "walk", "lite": 1, "out": out}));
+    }
+}
+
 /// Soak: the same builder built, and the same code rendered, many times in one process on one thread; every result must equal the
 /// first one (a counter that wraps, a pool that runs dry, a cache that fills up).  One event per block of 1 000 calls.
 pub fn soak(sink: &mut Sink, seed: u64, thorough: bool) {
